@@ -278,8 +278,26 @@ def select(prop, cfg, tier):
     quick = pick('quick')
     if tier == 'quick':
         return quick
-    rest = [n for n in pick('thorough') if n not in quick]
+    # thorough-only harnesses are scheduled only if tools/validate_harnesses.py has seen them pass (non-vacuously) on the
+    # unchanged tree: a harness that was never run to completion must not be able to raise an alarm (or waste the budget)
+    ok = validated()
+    rest = [n for n in pick('thorough') if n not in quick and n in ok]
     return quick + rest
+
+
+_VALIDATED = None
+
+
+def validated():
+    global _VALIDATED
+    if _VALIDATED is None:
+        path = os.path.join(VERIF, 'kani', 'validated.json')
+        try:
+            with open(path) as f:
+                _VALIDATED = set(json.load(f)['ok'])
+        except (OSError, ValueError, KeyError):
+            _VALIDATED = set()
+    return _VALIDATED
 
 
 def required(prop, cfg):
